@@ -12,7 +12,8 @@ HolderOps == {"GetPoint", "GetSecret", "GetSecretOrNone", "CheckFutureSecret", "
               "Activate", "Revoke", "SignHolder", "SignHolderRecovery", "SignHolderRedundant",
               "Restart"}
 CpOps == {"SignCp", "ValidateRevocation", "Restart"}
-Reqs == {r \in Requests(N, HC, CC, TT) :
+Reqs == IF Side = "handler" THEN HandlerRequests(N, {"A", "B"}, TT) ELSE
+        {r \in Requests(N, HC, CC, TT) :
            /\ (r.op = "ValidateHolder" /\ r.sig = "badhtlc" => r.c = "H")
            /\ (Side = "holder" => r.op \in HolderOps)
            /\ (Side = "cp" => r.op \in CpOps)}
